@@ -8,4 +8,4 @@ import (
 )
 
 func inspectCache(r *mon.Run, c cache.Cache, capacity int, cs Case) {}
-func tableDigest() string                                             { return tableDigestAPI() }
+func tableDigest() string                                           { return tableDigestAPI() }
